@@ -238,6 +238,15 @@ func NewPlaintextFormatterHook(key []byte) (*PlaintextFormatterHook, error) {
 // PreFormat handler adds (if necessary) "end of chain" marker to the entry in order
 // to cryptographically bound it to the integrity computation
 func (h *JSONFormatterHook) PreFormat(entry *log.Entry) error {
+	// "integrity" and "chain" keys of the JSON document are owned by this hook and are not authenticated as
+	// ordinary fields. Move caller's fields with these names out of the way, like logrus does for its own keys,
+	// otherwise they are overwritten after the integrity check is calculated and the entry cannot be verified
+	for _, key := range []string{IntegrityKey, AuditLogChainKey} {
+		if value, ok := entry.Data[key]; ok {
+			delete(entry.Data, key)
+			entry.Data["fields."+key] = value
+		}
+	}
 	// we add EndOfChain marker into entry in pre-format stage because it should be cryptographically bounded to the log entry
 	if strings.EqualFold(entry.Message, EndOfAuditLogChainMessage) {
 		entry.Data[AuditLogChainKey] = EndAuditLogChainValue
